@@ -418,7 +418,9 @@ fn apply_parent_ready(
     if &new_hash == parent_hash {
         debug!("parent is ready, continuing with same parent");
     } else {
-        assert_ne!(&new_slot, parent_slot);
+        // NOTE: The new parent can be in the same slot as the optimistic one:
+        // an equivocating previous leader may have shown us a different block
+        // than the one that ended up certified.
         debug!(
             "changed parent from {} in slot {} to {} in slot {}",
             parent_hash.short_hex(),
